@@ -116,7 +116,7 @@ func Run(c *core.Ctx, replay string) (*core.Result, error) {
 	}
 	res.AddTLC(t)
 
-	nProg, K := 6, 40
+	nProg, K := 6, 30
 	if c.Thorough() {
 		nProg, K = 50, 80
 	}
@@ -134,6 +134,7 @@ func Run(c *core.Ctx, replay string) (*core.Result, error) {
 			o.Recursive = false
 			o.DataIgnore = true
 			o.Pointers = rng.Intn(2) == 0
+			o.ByteSlices = true
 		})
 		// one witness program with recursive types keeps the recorded finding visible
 		rng := rand.New(rand.NewSource(c.Seed + 99))
@@ -278,6 +279,9 @@ func Run(c *core.Ctx, replay string) (*core.Result, error) {
 	res.Evaluations = calls
 	res.TracesVsImpl = len(recs)
 	res.Nontrivial = len(recs)
+	if replay == "" && skippedProgs*3 > len(s.Progs) {
+		return nil, core.Inconcl("%d of %d packages were left out (generator refusal or generated code that does not compile): the check no longer covers its universe", skippedProgs, len(s.Progs))
+	}
 	res.Rule = fmt.Sprintf("%d seeded random packages + 1 witness with recursive types; for every top-level type of the analysed file the generated rand function is called %d times in a binary compiled from the package, the generated data code and the generated union wrappers (after the import fixing pass); one record per (program, type); evaluations = values judged", len(progs)-1, K)
 	res.Extra = map[string]any{"programs_left_out": skippedProgs, "types": len(recs)}
 	return res, nil
